@@ -85,6 +85,7 @@ type Mon struct {
 	GetVerified       func(n *Node, txs []dbft.Transaction[vt.H])
 	NewPrepareRequest func(n *Node, ts, nonce uint64, hs []vt.H)
 	Subscribe         func(n *Node)
+	Panic             func(n *Node, c *Call, msg string) // the library panicked inside an API call (the node is not driven any further)
 	Restarted         func(n *Node)
 	EndOfRun          func(w *World)
 }
